@@ -42,32 +42,45 @@ def jsonParse (text : Str) : Option JV := (parseText text).map denote
 /-! ### §15.12.2 the reviver: Walk(holder, name) -/
 
 mutual
-/-- Walk: the elements (by index) resp. the own enumerable properties (in order) are walked first
-    and replaced by the result, or deleted when it is undefined; then the reviver is called on the
-    holder's property.  Returns the result and the keys of the reviver calls in call order. -/
-def revive (f : Reviver) : Nat → Str → RV → Option RV × List Str
-  | 0, _, _ => (none, [])
+/-- Walk(holder, name) with val = holder.[[Get]](name) passed in: the elements (by index) resp. the own
+    enumerable properties are walked first and replaced by the result, or deleted when it is undefined;
+    then the reviver is called on the holder's property.  Returns what that call did and the keys of
+    the reviver calls in call order. -/
+def revive (f : Reviver) : Nat → Str → RV → RRes × List Str
+  | 0, _, _ => (⟨none, none⟩, [])
   | fuel + 1, name, .arr l =>
     let r := reviveArr f fuel 0 l
     (f name (.arr r.1), r.2 ++ [name])
   | fuel + 1, name, .obj m =>
-    let r := reviveObj f fuel m
+    let r := reviveObj f fuel (RMs'.keys m) m
     (f name (.obj r.1), r.2 ++ [name])
   | _ + 1, name, v => (f name v, [name])
+/-- step 2.a: I from 0 to len-1 -/
 def reviveArr (f : Reviver) : Nat → Nat → RVs → RVs × List Str
   | 0, _, _ => (.nil, [])
   | _ + 1, _, .nil => (.nil, [])
   | fuel + 1, i, .cons v t =>
     let r := revive f fuel (decimalNat i) v
     let rest := reviveArr f fuel (i + 1) t
-    (.cons (match r.1 with | some x => x | none => .undef) rest.1, r.2 ++ rest.2)
-def reviveObj (f : Reviver) : Nat → RMs' → RMs' × List Str
-  | 0, m => (m, [])
-  | _ + 1, .nil => (.nil, [])
-  | fuel + 1, .cons k v t =>
-    let r := revive f fuel k v
-    let rest := reviveObj f fuel t
-    (match r.1 with | some x => .cons k x rest.1 | none => rest.1, r.2 ++ rest.2)
+    (.cons (match r.1.val with | some x => x | none => .undef) rest.1, r.2 ++ rest.2)
+/-- step 2.b: keys = the own enumerable property names, taken BEFORE any is walked; for each P in
+    keys: newElement = Walk(val, P) — [[Get]] gives undefined for a property deleted meanwhile —
+    then [[Delete]] or [[DefineOwnProperty]] -/
+def reviveObj (f : Reviver) : Nat → List Str → RMs' → RMs' × List Str
+  | 0, _, cur => (cur, [])
+  | _ + 1, [], cur => (cur, [])
+  | fuel + 1, p :: keys, cur =>
+    let val := match RMs'.get p cur with
+      | some v => v
+      | none => .undef
+    let r := revive f fuel p val
+    let cur1 := match r.1.del with           -- what the reviver did to `this`
+      | some d => RMs'.del d cur
+      | none => cur
+    let rest := reviveObj f fuel keys (match r.1.val with
+      | none => RMs'.del p cur1
+      | some x => RMs'.set p x cur1)
+    (rest.1, r.2 ++ rest.2)
 end
 
 /-! ### §15.12.3 -/
@@ -173,7 +186,7 @@ mutual
 def serial (C : SCtx) : Nat → Nat → Str → SV → WR JV
   | 0, _, _, _ => .oof
   | fuel + 1, depth, key, v0 =>
-    let v1 := viaToJSON v0                        -- 2: toJSON
+    let v1 := viaToJSON (viaGet v0)               -- 1: [[Get]]; 2: toJSON
     let v2 := match C.repl with                   -- 3: ReplacerFunction
       | some f => f key v1
       | none => v1
